@@ -194,7 +194,7 @@ def main(argv=None):
     # heavier shards first when the harness provides a weight
     if hasattr(H, "weight"):
         jobs.sort(key=lambda j: -H.weight(j[3]))
-    results = run_all(jobs, args.jobs, shard_timeout=int(os.environ.get("VERIF_SHARD_TIMEOUT", 0)) or getattr(H, "SHARD_TIMEOUT", {}).get(args.tier, 1500))
+    results = run_all(jobs, args.jobs, shard_timeout=int(os.environ.get("VERIF_SHARD_TIMEOUT", 0)) or getattr(H, "SHARD_TIMEOUT", {}).get(args.tier, 900 if args.tier == "quick" else 3000))
     results.sort(key=lambda r: r["idx"])
     if os.environ.get("VERIF_VERBOSE"):
         for r in sorted(results, key=lambda r: -r["wall"])[:40]:
